@@ -208,4 +208,61 @@ theorem bloop_spec (size hop : Nat) (hs : 0 < size) (hh : 0 < hop) (pad : α) :
     simp [bloop]
 
 
+
+/-! ### closed (indexed) form of the specification -/
+
+theorem nFull_step (size hop len : Nat) (hs : 0 < size) (hh : 0 < hop) (h : size ≤ len) :
+    nFull size hop len = nFull size hop (len - hop) + 1 := by
+  unfold nFull
+  have h1 : ¬ len < size := by omega
+  rw [if_neg h1]
+  by_cases h2 : len - hop < size
+  · rw [if_pos h2]
+    have : (len - size) / hop = 0 := by
+      apply Nat.div_eq_of_lt; omega
+    omega
+  · rw [if_neg h2]
+    have : len - size = (len - hop - size) + hop := by omega
+    rw [this, Nat.add_div_right _ hh]
+
+theorem blocksClosed_step (size hop : Nat) (hs : 0 < size) (hh : 0 < hop) (pad : α) (xs : List α)
+    (h : size ≤ xs.length) :
+    blocksClosed size hop pad xs = xs.take size :: blocksClosed size hop pad (xs.drop hop) := by
+  unfold blocksClosed
+  simp only [List.length_drop]
+  rw [nFull_step size hop xs.length hs hh h]
+  simp only [List.range_succ_eq_map, List.map_cons, List.map_map, Nat.zero_mul, List.drop_zero,
+    List.cons_append, List.drop_drop]
+  congr 1
+  have e1 : ∀ k, k * hop + hop = (k + 1) * hop := by intro k; rw [Nat.add_mul]; omega
+  have e2 : ∀ k, hop + k * hop = (k + 1) * hop := by intro k; rw [Nat.add_mul]; omega
+  congr 1
+  · apply List.map_congr_left
+    intro k _
+    simp only [Function.comp, Nat.succ_eq_add_one, e2]
+  · have e3 : xs.length - hop - nFull size hop (xs.length - hop) * hop
+        = xs.length - (nFull size hop (xs.length - hop) + 1) * hop := by
+      rw [← e2]; omega
+    simp only [e2, e3]
+
+theorem blocksSpec_eq_closed (size hop : Nat) (hs : 0 < size) (hh : 0 < hop) (pad : α) :
+    ∀ (n : Nat) (xs : List α), xs.length = n → blocksSpec size hop pad xs = blocksClosed size hop pad xs := by
+  intro n
+  induction n using Nat.strongRecOn with
+  | _ n ih =>
+    intro xs hn
+    rw [blocksSpec]
+    by_cases hc : xs.length < size ∨ hop = 0 ∨ size = 0
+    · rw [dif_pos hc]
+      have hlt : xs.length < size := by omega
+      unfold blocksClosed nFull
+      simp [hlt]
+    · rw [dif_neg hc]
+      have hge : size ≤ xs.length := by omega
+      rw [blocksClosed_step size hop hs hh pad xs hge]
+      congr 1
+      apply ih (xs.drop hop).length _ _ rfl
+      simp only [List.length_drop]; omega
+
+
 end ALV.C08
